@@ -271,6 +271,57 @@ let sem_c03_gen ~(all : bool) (e : Sexp.t) : Sexp.t =
    (the letter of C13; the lemma part was finding F12, repaired in /repo, and is no longer excused) -
    and F over earlier predicates (task, earlier definitions, earlier lemmas).
    [sem_outline_all] is the same oracle (kept as a name: it was the strict variant while F12 was recorded). *)
+(* Brute-force conservativity of one definition  forall vs (p(ts) <-> rhs)  whose head arguments are
+   variables, on a tiny domain (integers {0,1}, one symbol, #inf, #sup): the definition extends an
+   interpretation I of the predicates of rhs iff no two assignments of vs that give the head the SAME
+   argument tuple give rhs different truth values (then p can be interpreted by the value of rhs, and
+   by anything outside the image of the head).  Interpretations: the empty one, the full one and
+   sampled subsets of the ground atoms over {0,1}.  Some ((I, s1, s2)) = a premise model with no
+   extension, and the two clashing assignments.  As the demo of the property does for the emitted
+   problems; here on the accepted definition itself. *)
+let conservativity_cex (vs : var list) (ts : gterm list) (rhs : formula) (seed : int) =
+  let w = { w_ints = [ Semlib.z_of_int 0; Semlib.z_of_int 1 ]; w_syms = [ Semlib.cl "a" ] } in
+  let doms = List.map (fun (v : var) -> w_sort w v.vsort) vs in
+  let n_assign = List.fold_left (fun a d -> a * max 1 (List.length d)) 1 doms in
+  let head_vars = List.map gterm_to_var ts in
+  if List.exists (fun v -> v = None) head_vars || n_assign > 700 || List.length vs > 5 then None
+  else begin
+    let head_vars = List.map (function Some v -> v | None -> assert false) head_vars in
+    let rec assigns = function
+      | [] -> [ [] ]
+      | (v, d) :: rest -> let tl = assigns rest in List.concat_map (fun x -> List.map (fun e -> (v, x) :: e) tl) d in
+    let envs = assigns (List.combine vs doms) in
+    let st = Semlib.rng_of seed in
+    let preds = List.sort_uniq compare (predicates rhs) in
+    let vals = [ VNum (Semlib.z_of_int 0); VNum (Semlib.z_of_int 1) ] in
+    let atoms = List.concat_map (fun (q : pred) ->
+        let n = Conv.int_of_nat q.parity in
+        if n > 3 then [] else List.map (fun t -> (q.psym, t)) (Semlib.tuples vals n)) preds in
+    let interps =
+      if List.length atoms <= 8 then Semlib.subsets atoms
+      else [] :: atoms :: List.init 150 (fun _ -> Semlib.random_subset st atoms) in
+    let qcost = let rec c = function FAtomic _ -> 1 | FNot f -> c f | FBin (_, l, r) -> c l + c r
+                  | FQ (_, bs, f) -> List.fold_left (fun a (b : var) -> a * max 1 (List.length (w_sort w b.vsort))) 1 bs * c f in c rhs in
+    if qcost * n_assign * List.length interps > 3_000_000 then None
+    else begin
+      let result = ref None in
+      List.iter (fun i ->
+          if !result = None then begin
+            let seen = Hashtbl.create 64 in
+            List.iter (fun env ->
+                if !result = None then begin
+                  let tuple = List.map (fun v -> flookup env v) head_vars in
+                  let value = ceval w [] i env rhs in
+                  match Hashtbl.find_opt seen tuple with
+                  | Some (v0, env0) when v0 <> value -> result := Some (i, env0, env)
+                  | Some _ -> ()
+                  | None -> Hashtbl.add seen tuple (value, env)
+                end) envs
+          end) interps;
+      !result
+    end
+  end
+
 let sem_outline_gen (e : Sexp.t) : Sexp.t =
   match e with
   | L [ L [ spec; taken; ph ]; L (A "ok" :: _) ] ->
@@ -287,8 +338,19 @@ let sem_outline_gen (e : Sexp.t) : Sexp.t =
             | FQ (QForall, vs, FBin (CIff, FAtomic (AAtom (p, ts)), rhs)) ->
               let pr = { psym = p; parity = Conv.nat_of_int (List.length ts) } in
               let distinct l = List.length (uniq l) = List.length l in
+              let head_vars = List.filter_map gterm_to_var ts in
+              let brute = if distinct vs then conservativity_cex vs ts rhs (Semlib.hash_sexp (of_annot a)) else None in
               if not (distinct vs) then cex "quantified variables not distinct" a
               else if not (List.for_all (fun t -> gterm_to_var t <> None) ts) then cex "argument of the defined atom is not a variable" a
+              else if brute <> None then
+                (match brute with
+                 | Some (i, e1, e2) ->
+                   L [ A "cex"; S "accepted definition is not conservative: this interpretation of the body's predicates cannot be extended to the defined predicate (two assignments give the head the same arguments and the body different truth values)";
+                       of_annot a; L [ A "interpretation"; Semlib.of_fpint i ]; L [ A "assignment"; Semlib.of_fenv e1 ]; L [ A "assignment"; Semlib.of_fenv e2 ] ]
+                 | None -> ok 0)
+              else if not (List.for_all (fun v -> List.mem v vs) head_vars) then cex "head variable of the defined atom is not quantified (the definition is not closed)" a
+              else if not (List.for_all (fun v -> List.mem v head_vars) vs) then
+                cex "a quantified variable does not occur among the head arguments (the equivalence constrains the body's predicates: not a definitional extension)" a
               else if List.mem pr taken then cex "defined predicate is not fresh (task or earlier definition)" a
               else if List.mem pr earlier_lemma_preds then cex "defined predicate occurs in an earlier lemma (F12)" a
               else if not (List.for_all (fun v -> List.mem v vs) (free_variables rhs)) then cex "body not closed over the quantified variables" a
